@@ -10,14 +10,15 @@
    Established) is not required to be up to date until it is resumed / released. *)
 EXTENDS Speaker, SpeakerDom, TraceUtil
 
-VARIABLES l, stalled, held, obs, hasObs, pobs
-tvars == <<up, inr, loc, impPol, expPol, inrPol, expEff, l, stalled, held, obs, hasObs, pobs>>
+VARIABLES l, stalled, held, obs, hasObs, pobs, pcur
+tvars == <<up, inr, loc, impPol, expPol, inrPol, expEff, l, stalled, held, obs, hasObs, pobs, pcur>>
 
-TraceInit == PInit /\ l = 1 /\ stalled = {} /\ held = {} /\ obs = [none |-> TRUE] /\ hasObs = FALSE /\ pobs = [none |-> TRUE]
+TraceInit == PInit /\ l = 1 /\ stalled = {} /\ held = {} /\ obs = [none |-> TRUE] /\ hasObs = FALSE /\ pobs = [none |-> TRUE] /\ pcur = {}
 
 IsEvent(e) == l <= TLen /\ Trace[l].ev = e /\ l' = l + 1
 Row == Trace[l]
 TakeObs == /\ pobs' = obs
+           /\ pcur' = {p \in Peers : up[p] /\ p \notin stalled /\ p \notin held}   \* current BEFORE this step
            /\ IF "obs" \in DOMAIN Row THEN obs' = Row.obs /\ hasObs' = TRUE
               ELSE obs' = obs /\ hasObs' = FALSE     \* free-running mode: only the final state is observed
 
@@ -28,7 +29,7 @@ TReset == /\ IsEvent("Reset")
           /\ impPol' = "acc" /\ expPol' = "acc"
           /\ inrPol' = [p \in Peers |-> [x \in Prefixes |-> "acc"]]
           /\ expEff' = [p \in Peers |-> "acc"]
-          /\ stalled' = {} /\ held' = {} /\ obs' = [none |-> TRUE] /\ hasObs' = FALSE /\ pobs' = [none |-> TRUE]
+          /\ stalled' = {} /\ held' = {} /\ obs' = [none |-> TRUE] /\ hasObs' = FALSE /\ pobs' = [none |-> TRUE] /\ pcur' = {}
 
 TUp      == IsEvent("Up") /\ PUp(Row.p) /\ TakeObs /\ UNCHANGED <<stalled, held>>
 TUpHold  == IsEvent("UpHold") /\ PUp(Row.p) /\ held' = held \cup {Row.p} /\ TakeObs /\ UNCHANGED stalled
@@ -60,7 +61,7 @@ TRefresh == IsEvent("Refresh") /\ PResetOut({Row.p}) /\ TakeObs /\ UNCHANGED <<s
 (* C20: chaos operations (free-running mode) leave the property-layer state alone; the final
    Health line carries what the run-time oracles saw *)
 TOp     == IsEvent("Op") /\ TakeObs /\ UNCHANGED <<up, inr, loc, polvars, stalled, held>>
-THealth == IsEvent("Health") /\ obs' = [health |-> Row] /\ hasObs' = FALSE /\ pobs' = obs
+THealth == IsEvent("Health") /\ obs' = [health |-> Row] /\ hasObs' = FALSE /\ pobs' = obs /\ pcur' = {}
            /\ UNCHANGED <<up, inr, loc, polvars, stalled, held>>
 
 TraceNext == TDelPeer \/ TAddPeer \/ TOp \/ THealth \/ TSetImp \/ TSetExp \/ TResetIn \/ TResetOut \/ TResetBoth \/ TRefresh \/ TReset \/ TUp \/ TUpHold \/ TRelease \/ TDown \/ TAnn \/ TWd \/ TApiAdd \/ TApiDel
@@ -94,10 +95,12 @@ C01_AddPathExact ==
            /\ \A i, j \in 1..Len(O) : i # j => (O[i].id # O[j].id /\ O[i].src # O[j].src)
            /\ Len(O) = MinOf(SendMax(p), Cardinality(E))
 C15_AddPathAsIfFresh == C01_AddPathExact
-(* each advertised route keeps ONE identifier for as long as the session lasts *)
+(* each advertised route keeps ONE identifier for as long as it stays advertised: judged between two
+   consecutive observations of a neighbour that was reading at both (a stalled neighbour sees
+   several events at once, among them possibly a withdrawal and a new announcement of a source) *)
 C01_StableIds ==
   (hasObs /\ "mviews" \in DOMAIN pobs /\ l > 1) =>
-    \A p \in Peers : (SendMax(p) > 0 /\ up[p]
+    \A p \in Peers : (SendMax(p) > 0 /\ up[p] /\ p \in pcur /\ Current(p)
                       /\ ~(Trace[l - 1].ev \in {"Up", "UpHold", "Down"} /\ Trace[l - 1].p = p)) =>
        \A x \in Prefixes : \A i \in 1..Len(obs.mviews[p][x]) : \A j \in 1..Len(pobs.mviews[p][x]) :
           obs.mviews[p][x][i].src = pobs.mviews[p][x][j].src
